@@ -574,6 +574,7 @@ pub fn check_session(cap: &Capture, scn: &DebugScenario, report: &mut Report) ->
         minimal: scn.minimal,
         debug: None,
         stdin: if scn.input_is_deliverable() || scn.input_follows_script() { scn.input.clone() } else { Vec::new() },
+        tty_input: None,
         fuel: 60_000,
         max_idle: u64::MAX,
         max_commands: u64::MAX,
@@ -683,6 +684,7 @@ pub fn check_session(cap: &Capture, scn: &DebugScenario, report: &mut Report) ->
             arg: delivery.arg.clone(),
             terminal: delivery.terminal.clone(),
         }),
+        tty_input: None,
         stdin: if has_input {
             scn.input.clone()
         } else if scn.input_follows_script() {
@@ -1464,6 +1466,7 @@ pub fn run_delivery(cap: &Capture, scn: &DebugScenario, transport: &Transport, s
             arg: delivery.arg,
             terminal: delivery.terminal,
         }),
+        tty_input: None,
         stdin: if *transport == Transport::Arg && scn.input_is_deliverable() { scn.input.clone() } else { delivery.stdin },
         fuel: 4 * (120_000 + script.len() as u64 + 1) + 64,
         max_idle: 24,
